@@ -724,3 +724,106 @@ func ZZ_C11_callbacks() {
 	}
 	_ = ast.Position{}
 }
+
+// ---- host values x target types: wherever Go itself converts, the value that arrives is Go's
+
+type zzIntSlice []int
+
+func (s zzIntSlice) Len() int { return len(s) }
+
+type zzLener interface{ Len() int }
+type zzName string
+type zzNum64 int64
+type zzConvErr struct{}
+
+func (zzConvErr) Error() string { return "e" }
+
+// ZZ_C11_host_values_convert_as_go: for every pair (host value, target type) of
+// the two pools for which Go's own conversion exists (reflect's ConvertibleTo,
+// and the slice is long enough where the target is an array or array pointer),
+// convertReflectValueToType succeeds and yields Go's result; the source comes
+// plain or out of an interface-typed slot.
+func ZZ_C11_host_values_convert_as_go() {
+	i64, f64 := zz.Int64(), zz.Float64()
+	srcs := []struct {
+		name string
+		v    interface{}
+	}{
+		{"[]byte", []byte{'a', 'b'}}, {"[]rune", []rune{'a', 'b'}}, {"named-slice-with-methods", zzIntSlice{3, 1}},
+		{"[]int(4)", []int{1, 2, 3, 4}}, {"[]int(2)", []int{1, 2}}, {"named-string", zzName("n")}, {"named-int64", zzNum64(7)},
+		{"string", "str"}, {"int64", i64}, {"float64", f64}, {"[2]int64", [2]int64{1, 2}}, {"*struct", &zzRec{A: 1}},
+		{"error-struct", zzConvErr{}}, {"bool", true},
+	}
+	tgts := []struct {
+		name string
+		t    reflect.Type
+	}{
+		{"string", reflect.TypeOf("")}, {"[]byte", reflect.TypeOf([]byte(nil))}, {"[]rune", reflect.TypeOf([]rune(nil))},
+		{"interface-with-Len", reflect.TypeOf((*zzLener)(nil)).Elem()}, {"error", reflect.TypeOf((*error)(nil)).Elem()},
+		{"interface{}", interfaceType}, {"*[4]int", reflect.TypeOf((*[4]int)(nil))}, {"[4]int", reflect.TypeOf([4]int{})},
+		{"*[2]int", reflect.TypeOf((*[2]int)(nil))}, {"[]int", reflect.TypeOf([]int(nil))}, {"named-string", reflect.TypeOf(zzName(""))},
+		{"named-int64", reflect.TypeOf(zzNum64(0))}, {"int64", reflect.TypeOf(int64(0))}, {"float64", reflect.TypeOf(float64(0))},
+		{"named-slice", reflect.TypeOf(zzIntSlice(nil))}, {"*struct", reflect.TypeOf((*zzRec)(nil))}, {"[2]int64", reflect.TypeOf([2]int64{})},
+	}
+	s := srcs[zz.Choose(len(srcs))]
+	t := tgts[zz.Choose(len(tgts))]
+	src := reflect.ValueOf(s.v)
+	if !src.Type().ConvertibleTo(t.t) {
+		return
+	}
+	if src.Kind() == reflect.Slice {
+		// Go's slice -> array / array pointer conversion panics on a short slice
+		at := t.t
+		if at.Kind() == reflect.Ptr && at.Elem().Kind() == reflect.Array {
+			at = at.Elem()
+		}
+		if at.Kind() == reflect.Array && at != t.t || t.t.Kind() == reflect.Array {
+			if src.Len() < at.Len() {
+				return
+			}
+		}
+	}
+	if src.Kind() == reflect.Slice && t.t.Kind() == reflect.Array {
+		return // (element-wise in anko: the convert table has these rows)
+	}
+	if s.name == "float64" && (t.name == "int64" || t.name == "named-int64") {
+		return // (out-of-range floats: platform specific; the numeric lemma covers the rest)
+	}
+	want := src.Convert(t.t)
+	in := src
+	id := s.name + "->" + t.name
+	if zz.Choose(2) == 1 {
+		in = reflect.ValueOf([]interface{}{s.v}).Index(0)
+		id += "/from-interface-slot"
+	}
+	rv, err := convertReflectValueToType(in, t.t)
+	zz.Assert(err == nil, "C11.host-values/go-convertible-converts/"+id)
+	if err != nil {
+		return
+	}
+	zz.Assert(rv.IsValid() && (rv.Type() == t.t || t.t == interfaceType), "C11.host-values/exact-target-type/"+id)
+	if !rv.IsValid() {
+		return
+	}
+	same := false
+	switch {
+	case s.name == "float64" || s.name == "int64":
+		if rv.Kind() == reflect.Interface {
+			rv = rv.Elem()
+		}
+		if want.Kind() == reflect.Interface {
+			want = want.Elem()
+		}
+		switch rv.Kind() {
+		case reflect.Int64:
+			same = rv.Int() == want.Int()
+		case reflect.Float64:
+			same = zzSameFloat(rv.Float(), want.Float())
+		case reflect.String:
+			same = rv.String() == want.String()
+		}
+	default:
+		same = reflect.DeepEqual(rv.Interface(), want.Interface())
+	}
+	zz.Assert(same, "C11.host-values/value-is-go's-conversion/"+id)
+}
